@@ -415,3 +415,60 @@ Proof.
     destruct H as [H|[]]. inversion H; subst. right. rewrite Ef.
     split; [now apply Z.eqb_neq|]. split; [discriminate|reflexivity].
 Qed.
+
+(* ------------------------------------------------------------------ statements as used in Props/C04.v *)
+Lemma sdc_exactly_once_full (orc : oracle) (r32 : Qc -> oval) (rows : list trow) :
+  (forall tr, train_sdc orc r32 rows = Ok tr -> tr = map (sdc_doc_trip orc r32) (filter t_mask rows)) /\
+  ((forall r, In r rows -> t_mask r = true ->
+      o_nonneg (t_obs r) = true /\ o_isnan (sdc_transform orc r32 (t_obs r)) = false /\
+      (2 <= length (t_treats r))%nat) ->
+   exists tr, train_sdc orc r32 rows = Ok tr).
+Proof. split; [exact (train_sdc_exactly_once orc r32 rows) | exact (train_sdc_accepts_valid orc r32 rows)]. Qed.
+
+Lemma single_effect_documented_full (orc : oracle) (r32 : Qc -> oval) (fm gneg gnan : bool) (arity : nat)
+      (rows : list trow) (st : istate) :
+  train_int orc r32 fm gneg gnan arity rows = Ok st ->
+  (i_lookup st = lk_update [] (single_effect_map arity (filter t_mask rows))
+   \/ (existsb t_mask rows = false /\ i_lookup st = [])) /\
+  forall obs s t v, In ((s, t), v) (single_effect_map arity obs) ->
+    (t = CONTROL_SENTINEL_VALUE /\ v = OFin 1%Qc) \/
+    (t <> CONTROL_SENTINEL_VALUE /\
+     filter (fun r => is_single arity r && single_matches s t r) obs <> [] /\
+     v = omean (map t_obs (filter (fun r => is_single arity r && single_matches s t r) obs))).
+Proof.
+  intros H. split.
+  - exact (train_int_ok orc r32 fm gneg gnan arity rows st H).
+  - intros obs. exact (single_effect_map_value arity obs).
+Qed.
+
+Lemma refuses_negative_nan_sdc_full (orc : oracle) (r32 : Qc -> oval) (rows : list trow) r :
+  In r rows -> (o_negative (t_obs r) = true \/ t_obs r = ONaN) ->
+  (forall st, exists t, sdc_add orc r32 st rows = Err t) /\
+  (t_mask r = true -> exists t, train_sdc orc r32 rows = Err t).
+Proof.
+  intros Hin Hbad. split.
+  - intros st. exact (sdc_add_refuses orc r32 st rows r Hin Hbad).
+  - intros Hm. exact (train_sdc_refuses orc r32 rows r Hin Hm Hbad).
+Qed.
+
+Lemma refuses_negative_nan_int_full (orc : oracle) (r32 : Qc -> oval) (fm gnan : bool) (arity : nat)
+      (rows : list trow) r :
+  In r rows -> (o_negative (t_obs r) = true \/ t_obs r = ONaN) ->
+  (forall st, exists t, int_add orc r32 fm true gnan st arity rows = Err t) /\
+  (t_mask r = true -> exists t, train_int orc r32 fm true gnan arity rows = Err t).
+Proof.
+  intros Hin Hbad. split.
+  - intros st. exact (int_add_refuses orc r32 fm true gnan st arity rows r eq_refl Hin Hbad).
+  - intros Hm. exact (train_int_refuses orc r32 fm true gnan arity rows r eq_refl Hin Hm Hbad).
+Qed.
+
+Lemma downstream_frame_full (s1 s2 : list trow) :
+  (same_except_masked s1 s2 <-> downstream_input s1 = downstream_input s2) /\
+  (same_except_masked s1 s2 ->
+     forall (A : Type) (f : list drow -> A), f (downstream_input s1) = f (downstream_input s2)) /\
+  train_input s1 = view_train_input (downstream_input s1).
+Proof.
+  split; [exact (downstream_frame_iff s1 s2)|]. split.
+  - intros H A f. exact (downstream_frame_functions A f s1 s2 H).
+  - exact (train_input_factors s1).
+Qed.
